@@ -4,7 +4,10 @@ import WpModel.Drive.BoxEdges
 import WpModel.Drive.Paginate
 import WpModel.Drive.UsedCheck
 import WpModel.Drive.ShrinkFit
+import WpModel.Drive.BlockTreeV
+import WpModel.Drive.UsedShift
 
 def main : IO Unit :=
   Wp.Drive.runDriver [Wp.Drive.BoxModel.handle, Wp.Drive.BoxEdges.handle, Wp.Drive.Paginate.handle,
-    Wp.Drive.UsedCheck.handle, Wp.Drive.ShrinkFit.handle]
+    Wp.Drive.UsedCheck.handle, Wp.Drive.ShrinkFit.handle, Wp.Drive.BlockTreeV.handle,
+    Wp.Drive.UsedShift.handle]
